@@ -1046,7 +1046,7 @@ func main() {
 			Name: "ring-long", HangLimit: 20 * time.Minute,
 			Explore: func(r *mc.Run) {
 				var cases []ringLong
-				for _, n := range mc.Pick(r, []int{8, 15, 16, 17, 18, 31, 32, 33, 34, 63, 64, 65, 129, 257}, []int{8, 15, 16, 17, 18, 31, 32, 33, 34, 63, 64, 65, 100, 127, 128, 129, 257, 513, 1025}) {
+				for _, n := range mc.Pick(r, []int{8, 15, 16, 17, 18, 31, 32, 33, 34, 63, 64, 65, 129, 257}, []int{8, 15, 16, 17, 18, 31, 32, 33, 34, 63, 64, 65, 100, 127, 128, 129, 257, 513}) {
 					cases = append(cases, ringLong{n, 0}, ringLong{n, 2})
 				}
 				var calls int64
